@@ -11,6 +11,8 @@ type Response struct {
 	entity_body    string
 	headers        *http_headers
 	con            *Connection
+	//End是否被调用过(空字符串也是处理函数给出的响应)
+	ended bool
 }
 
 func newResponse(con *Connection) *Response {
@@ -55,7 +57,7 @@ func (r *Response) send_response() {
 	h := r.headers
 	h.http_headers_add("Server", "github.com/brewlin/net-protocol/1.00")
 	h.http_headers_add("Connection", "close")
-	if r.entity_body == "" {
+	if r.entity_body == "" && !r.ended {
 		r.entity_body = default_success_msg
 	}
 
@@ -84,6 +86,7 @@ func (r *Response) send_response() {
 //End send the body
 func (r *Response) End(buf string) {
 	r.entity_body = buf
+	r.ended = true
 }
 
 /*
